@@ -23,7 +23,10 @@ REPO = os.environ.get("VERIF_REPO", "/repo")
 BUILD = os.environ.get("VERIF_BUILD", os.path.join(VERIF, "build"))
 COQ = os.path.join(VERIF, "coq")
 OUT = os.path.join(VERIF, "out")          # replay files, logs (git-ignored)
-EVID = os.environ.get("VERIF_EVID", os.path.join(VERIF, "evidence"))
+# evidence/<id>.json describes a run against /repo itself; a run against another tree (VERIF_REPO: a scratch worktree with a
+# seeded change or a proposed fix) writes its record under out/ so that it never replaces the registered evidence
+EVID = os.environ.get("VERIF_EVID", os.path.join(VERIF, "evidence") if os.path.realpath(REPO) == "/repo"
+                      else os.path.join(VERIF, "out", "evidence-other-tree"))
 NCPU = os.cpu_count() or 4
 
 LIB_FILES = """util ringbuffer ringbuffer_helper unix array hdb map hashtable skiplist trie
@@ -554,13 +557,17 @@ class Rng(random.Random):
 # Batch running of script-driven executables, diffing, shrinking
 # ---------------------------------------------------------------------------
 
-def run_cases(exe, cases, env=None, timeout=300, wrapper=None):
+CRASH_BUDGET_HIT = []     # (exe, first skipped case, number skipped) per run_cases call that gave up
+
+
+def run_cases(exe, cases, env=None, timeout=300, wrapper=None, max_crashes=8):
     """Feed `cases` (list of script texts, without the marker line) to a script-driven executable that
     echoes '# case <i>' marker lines and starts fresh state at each.  Survives crashes: the case
     during which the process died is reported with crash=(rc, tail of stderr) and the remaining
     cases are run in a new process.  Returns list of (lines, crash) per case."""
     results = [None] * len(cases)
     start = 0
+    ncrash = 0
     e = dict(IMPL_ENV)
     if env:
         e.update(env)
@@ -568,7 +575,9 @@ def run_cases(exe, cases, env=None, timeout=300, wrapper=None):
         text = "".join("# case %d\n%s" % (i, cases[i] if cases[i].endswith("\n") or not cases[i] else cases[i] + "\n")
                        for i in range(start, len(cases)))
         cmd = (wrapper or []) + [exe]
+        t_batch = time.time()
         rc, out, err = sh2(cmd, timeout=timeout, env=e, stdin=text.encode())
+        t_batch = time.time() - t_batch
         cur = None
         seen = []
         for line in out.split("\n"):
@@ -591,6 +600,18 @@ def run_cases(exe, cases, env=None, timeout=300, wrapper=None):
             if results[i] is None:
                 results[i] = ([], None)
         start = last + 1
+        if rc in (124, -14, 142) or t_batch > 15:   # timed out, killed by the harness' own alarm(), or slow to die: a HANG
+            # (an abort is cheap and is not counted)
+            ncrash += 1
+            if rc == 124:
+                timeout = min(timeout, 60)   # the harness has no alarm of its own: do not pay the full timeout again
+        if ncrash >= max_crashes and start < len(cases):
+            # a tree on which the harness keeps hanging (each hang costs its alarm time): the dozen hangs found are
+            # reported, the remaining cases are not run (empty output, no crash) so that the check ends in minutes
+            CRASH_BUDGET_HIT.append((os.path.basename(exe), start, len(cases) - start))
+            for i in range(start, len(cases)):
+                results[i] = ([], None)
+            break
     return results
 
 
